@@ -262,6 +262,8 @@ func (reg *Reg) referrerDelete(ctx context.Context, r ref.Ref, m manifest.Manife
 	// lock to avoid internal race conditions between pulling and pushing tag
 	reg.muRefTag.Lock()
 	defer reg.muRefTag.Unlock()
+	// remove from cache again once the tag is updated, another update may have cached the list while waiting for the lock
+	defer reg.cacheRL.Delete(rSubject)
 	// fallback to using tag schema for refers
 	rl, err := reg.referrerListByTag(ctx, rSubject)
 	if err != nil {
